@@ -20,7 +20,7 @@ ANCHORS = ["decaylanguage.decay.decay:DecayChain.to_string", "decaylanguage.deca
            "decaylanguage.utils.utilities:DescriptorFormat.format_descriptor"]
 WORKERS = {"quick": 4, "thorough": 16}
 WTESTS = {"groups": ['to_string'], "tests": ['tests/decay', 'tests/utils']}
-REQUIRED = {"sub-decay-without-daughters": 10, "depth>=3": 50, "name-with-paren": 50, "name-with-quote-or-sign": 50, "repeated-subdecay": 50, "orders-compared": 500, "queried-before-to_string": 50, "rendered-before-inside-after-block": 50, "context-object-re-entered-inside-its-block": 20, "rejected-format-request-before-rendering": 20, "block-left-through-an-exception": 20, "format-through-a-subclass": 20, "config-assigned-by-hand-before-the-block": 20, "patterns-set-by-hand-and-handed-back": 20,
+REQUIRED = {"sub-decay-without-daughters": 10, "depth>=3": 50, "name-with-paren": 50, "name-with-quote-or-sign": 50, "repeated-subdecay": 50, "orders-compared": 500, "queried-before-to_string": 50, "rendered-before-inside-after-block": 50, "context-object-re-entered-inside-its-block": 20, "rejected-format-request-before-rendering": 20, "block-left-through-an-exception": 20, "format-through-a-subclass": 20, "context-objects-prepared-before-nesting": 20, "config-assigned-by-hand-before-the-block": 20, "patterns-set-by-hand-and-handed-back": 20,
             **{f"pattern-pair-{i}": 20 for i in range(8)}, "C13.to_string.reads_back": 500}
 EXHAUSTIVE_NOTE = "tree shapes <= 5 (quick) / 6 (thorough) decaying particles enumerated with multiplicities 1..2; all daughter orders for small chains"
 ASSUMPTIONS = ["names contain no blanks and have balanced parentheses (all real particle names do)", "brackets of the pattern family do not occur in names"]
@@ -160,6 +160,19 @@ def check_case(ctx, case, workload):
                 ctx.hit("config-assigned-by-hand-before-the-block")
                 DescriptorFormat.config = {"sub_decay_pattern": PATTERNS[0][1], "decay_pattern": PATTERNS[0][0]}
             fmt = (_preset_class() if _built[0] % 3 == 0 else DescriptorFormat)(p1, p2)     # every third time through a user's subclass of DescriptorFormat
+            if first and rng.random() < 0.2:
+                # two context objects prepared up front (both built while the default is in force), then nested: after the inner block the outer patterns are back
+                ctx.hit("context-objects-prepared-before-nesting")
+                q1, q2, _rd = PATTERNS[(pi % (len(PATTERNS) - 1)) + 1 if pi + 1 < len(PATTERNS) else 1]
+                inner = DescriptorFormat(q1, q2)
+                with fmt:
+                    with inner:
+                        dc.to_string()
+                    inside = dc.to_string()
+                after = dc.to_string()
+                if after != before:
+                    ctx.violate("descriptor:differs-after-format-block", f"before the blocks {before!r}, after them {after!r}", wit)
+                return inside
             with fmt:
                 if first and rng.random() < 0.3:
                     rejected_request()
